@@ -357,8 +357,7 @@ fn lib_op(op: &Value, stg: &SymbolicAsyncGraph, bn: &BooleanNetwork, named: &Has
                 let g = stg.restrict(&b.union(a.as_ref().unwrap()));
                 bdd_s(&biodivine_lib_param_bn::symbolic_async_graph::reachability::Reachability::reach_bwd(&g, a.as_ref().unwrap()))
             }
-            "steady" => bdd_s(&biodivine_hctl_model_checker::evaluation::algorithm::compute_steady_states(stg)),
-            "attractors" => bdd_s(&biodivine_hctl_model_checker::evaluation::algorithm::compute_attractor_states(stg, a.as_ref().unwrap_or(stg.unit_colored_vertices()))),
+            "steady" => bdd_s(&biodivine_lib_param_bn::fixed_points::FixedPoints::symbolic(stg, stg.unit_colored_vertices())),
             "state_var_true" => json!(stg.symbolic_context().mk_state_variable_is_true(var.unwrap()).to_string()),
             "restrict" => {
                 // with_custom_context on unit & a
